@@ -210,6 +210,11 @@ func DischargeAll(obls []*Obligation, covers []*Cover, o DischargeOpts) (res []*
 			if known && limit > 5 {
 				limit = 5
 			}
+			if j.r.Cover != nil && limit > 4 {
+				// a vacuity cover only has to be *not unsat*; scripts with quantified axioms rarely get a model, and waiting
+				// the full limit for "unknown" only slows the check down
+				limit = 4
+			}
 			st, solver, t, all, dis := discharge(j.r.File, limit, o.Race)
 			for try := 0; st == "error" && try < 2; try++ {
 				// every solver failed to start or died (a loaded machine): not an answer, ask again
